@@ -101,9 +101,11 @@ void UnicodePrinter::bvisit(const Complex &x)
         }
     }
     std::string str = s.str();
+    // the imaginary unit is 4 bytes wide and the product sign 3 bytes; each
+    // occupies one column
     std::size_t width = str.length() - 3;
     if (mul)
-        width--;
+        width -= 2;
     StringBox box(str, width);
     box_ = box;
 }
